@@ -328,6 +328,10 @@ class CallMixin:
         raise Unsupported(f"getattr {name} on {type(o).__name__}")
 
     def uval_getattr(self, o, name, default=_MISSING):
+        if o.cls == "GenerativeFunction" and (o.cls, name) in self.abstract_methods:
+            # modularity: a GFI call on the abstract callee goes through the callee's CONTRACT even on a path where the code
+            # under verification has tested its class (isinstance(self.gen_fn, Vmap)): the contract holds for every class
+            return BoundMethod(o, NativeFn(f"{o.cls}.{name}", self.abstract_methods[(o.cls, name)]))
         view = self.ctx.views.get(o.t.get_id()) if o.t is not None else None
         if view is None and o.t is not None:
             for ci, pred in self.ctx.narrowed.get(o.t.get_id(), []):
